@@ -18,37 +18,37 @@ import (
 )
 
 var (
-	TBool    = reflect.TypeOf(false)
-	TInt     = reflect.TypeOf(int(0))
-	TInt8    = reflect.TypeOf(int8(0))
-	TInt16   = reflect.TypeOf(int16(0))
-	TInt32   = reflect.TypeOf(int32(0))
-	TInt64   = reflect.TypeOf(int64(0))
-	TUint    = reflect.TypeOf(uint(0))
-	TUint8   = reflect.TypeOf(uint8(0))
-	TUint16  = reflect.TypeOf(uint16(0))
-	TUint32  = reflect.TypeOf(uint32(0))
-	TUint64  = reflect.TypeOf(uint64(0))
-	TFloat32 = reflect.TypeOf(float32(0))
-	TFloat64 = reflect.TypeOf(float64(0))
-	TString  = reflect.TypeOf("")
-	TBytes   = reflect.TypeOf([]byte(nil))
-	TTime    = reflect.TypeOf(time.Time{})
-	TCTime   = reflect.TypeOf(compact_time.Time{})
-	TBigInt  = reflect.TypeOf(big.Int{})
-	TPBigInt = reflect.TypeOf((*big.Int)(nil))
+	TBool      = reflect.TypeOf(false)
+	TInt       = reflect.TypeOf(int(0))
+	TInt8      = reflect.TypeOf(int8(0))
+	TInt16     = reflect.TypeOf(int16(0))
+	TInt32     = reflect.TypeOf(int32(0))
+	TInt64     = reflect.TypeOf(int64(0))
+	TUint      = reflect.TypeOf(uint(0))
+	TUint8     = reflect.TypeOf(uint8(0))
+	TUint16    = reflect.TypeOf(uint16(0))
+	TUint32    = reflect.TypeOf(uint32(0))
+	TUint64    = reflect.TypeOf(uint64(0))
+	TFloat32   = reflect.TypeOf(float32(0))
+	TFloat64   = reflect.TypeOf(float64(0))
+	TString    = reflect.TypeOf("")
+	TBytes     = reflect.TypeOf([]byte(nil))
+	TTime      = reflect.TypeOf(time.Time{})
+	TCTime     = reflect.TypeOf(compact_time.Time{})
+	TBigInt    = reflect.TypeOf(big.Int{})
+	TPBigInt   = reflect.TypeOf((*big.Int)(nil))
 	TBigFloat  = reflect.TypeOf(big.Float{})
 	TPBigFloat = reflect.TypeOf((*big.Float)(nil))
-	TAPD     = reflect.TypeOf(apd.Decimal{})
-	TPAPD    = reflect.TypeOf((*apd.Decimal)(nil))
-	TDFloat  = reflect.TypeOf(compact_float.DFloat{})
-	TURL     = reflect.TypeOf(url.URL{})
-	TPURL    = reflect.TypeOf((*url.URL)(nil))
-	TUID     = reflect.TypeOf(types.UID{})
-	TMedia   = reflect.TypeOf(types.Media{})
-	TNode    = reflect.TypeOf(types.Node{})
-	TEdge    = reflect.TypeOf(types.Edge{})
-	TIface   = reflect.TypeOf((*interface{})(nil)).Elem()
+	TAPD       = reflect.TypeOf(apd.Decimal{})
+	TPAPD      = reflect.TypeOf((*apd.Decimal)(nil))
+	TDFloat    = reflect.TypeOf(compact_float.DFloat{})
+	TURL       = reflect.TypeOf(url.URL{})
+	TPURL      = reflect.TypeOf((*url.URL)(nil))
+	TUID       = reflect.TypeOf(types.UID{})
+	TMedia     = reflect.TypeOf(types.Media{})
+	TNode      = reflect.TypeOf(types.Node{})
+	TEdge      = reflect.TypeOf(types.Edge{})
+	TIface     = reflect.TypeOf((*interface{})(nil)).Elem()
 )
 
 var numericElemTypes = []reflect.Type{TUint8, TUint16, TUint32, TUint64, TUint, TInt8, TInt16, TInt32, TInt64, TInt, TFloat32, TFloat64, TBool}
@@ -63,13 +63,13 @@ var FieldNames = []string{"Alpha", "BetaGamma", "Count", "DataSet", "Elem", "Foo
 
 // TypeOpts bounds RandType.
 type TypeOpts struct {
-	NoSpecial    bool // no Media/Node/Edge
-	NoInterface  bool
-	NoTime       bool
-	NoBigFloat   bool
-	NoPointers   bool
-	OnlyNamed    bool
-	Salt         string // made part of struct field names so types are fresh (first-use cache paths)
+	NoSpecial   bool // no Media/Node/Edge
+	NoInterface bool
+	NoTime      bool
+	NoBigFloat  bool
+	NoPointers  bool
+	OnlyNamed   bool
+	Salt        string // made part of struct field names so types are fresh (first-use cache paths)
 }
 
 // RandType builds a random supported type of bounded depth.
